@@ -270,6 +270,21 @@ func (c *TermCtx) Eq(a, b *Term) *Term {
 	if a.IsConst() && !b.IsConst() {
 		a, b = b, a
 	}
+	// (x + k1) == (x + k2), x == (x + k): decided by the constants (sound under wrap-around)
+	if a.S.K == SBV {
+		ab, ak := splitAddConst(a)
+		bb, bk := splitAddConst(b)
+		if ab != nil && ab == bb {
+			return c.Bool(ak == bk)
+		}
+		if ab != nil && bb != nil && ab != a && bb != b {
+			// both have constant parts: compare bases with the difference folded on one side
+			return c.Eq(ab, c.bin(OpBvAdd, bb, c.Const(a.S.W, bk-ak)))
+		}
+		if b.IsConst() && ab != a && ab != nil {
+			return c.Eq(ab, c.Const(a.S.W, b.Val-ak))
+		}
+	}
 	// zext(x) == const
 	if b.IsConst() && a.Op == OpZext {
 		iw := a.Args[0].S.W
@@ -842,3 +857,14 @@ func (t *Term) String() string {
 }
 
 func (t *Term) neg(c *TermCtx) *Term { return c.BvNeg(t) }
+
+// splitAddConst splits t into (base, k) with t = base + k; base is t itself (k=0) when t is no constant addition.
+func splitAddConst(t *Term) (*Term, uint64) {
+	if t.Op == OpConst {
+		return nil, t.Val
+	}
+	if t.Op == OpBvAdd && t.Args[1].IsConst() {
+		return t.Args[0], t.Args[1].Val
+	}
+	return t, 0
+}
